@@ -73,6 +73,7 @@ JOINS = (
     ("join", ("K",), spaces.P_D_GT_A, False),
     ("join", ("K",), None, True),
     ("join", ("Kc",), None, False),
+    ("join", ("Kx",), None, False),
 )
 
 
@@ -92,7 +93,10 @@ def world():
     from ..realize import LeafSpec, World
 
     w = spaces.multi_world()
-    leaves = w.leaves + (LeafSpec("Kc", "s", ("a", "c"), ((1, 91), (2, 92), (2, 93))),)
+    leaves = w.leaves + (
+        LeafSpec("Kc", "s", ("a", "c"), ((1, 91), (2, 92), (2, 93))),
+        LeafSpec("Kx", "s", ("x", "d"), ((-1, 7), (-2, 8), (-2, 9))),  # x: a key column the base trees *calculate*
+    )
     return World(engines=w.engines, leaves=leaves)
 
 
